@@ -105,6 +105,10 @@ pub fn decode(
 pub fn sd_jwt_parts(serialized_jwt: &str) -> (String, Vec<String>, Option<String>) {
     let parts: Vec<&str> = serialized_jwt.split('~').collect();
 
+    if parts.len() < 2 {
+        return (serialized_jwt.to_string(), Vec::new(), None);
+    }
+
     let issuer_jwt = parts[0].to_string();
 
     let disclosures = parts[1..parts.len() - 1]
